@@ -540,7 +540,7 @@ class Inliner:
         if name in self.no_inline and not getattr(h, '_closure', False):
             return False
         is_fresh = name in self.fresh and self.fresh[name][1] is h
-        if not getattr(h, '_closure', False) and not is_fresh and (
+        if not getattr(h, '_closure', False) and not is_fresh and not getattr(h, '_fresh_func', False) and (
                 not name.startswith('_') or name.startswith('__')):
             return False
         if (_contains_yield(h) and not allow_generator) or len(list(_walk_no_nested(h))) > 800:
@@ -1108,6 +1108,13 @@ def _forward_return_temps(fn):
     return changed[0]
 
 
+def _is_plain_test(v):
+    """a call, a comparison, or negations of one"""
+    while isinstance(v, ast.UnaryOp) and isinstance(v.op, ast.Not):
+        v = v.operand
+    return isinstance(v, (ast.Call, ast.Compare))
+
+
 def _forward_flags(fn):
     """N10: `ok = pred(...)` immediately followed by `if ok:` / `if not ok:` (ok used nowhere
     else): the call takes the flag's place in the test."""
@@ -1129,7 +1136,7 @@ def _forward_flags(fn):
             for h in getattr(st, 'handlers', []) or []:
                 block(h.body)
             if isinstance(st, ast.Assign) and len(st.targets) == 1 and isinstance(st.targets[0], ast.Name) \
-                    and isinstance(st.value, (ast.Call, ast.Compare)) and i + 1 < len(stmts) and isinstance(stmts[i + 1], ast.If):
+                    and _is_plain_test(st.value) and i + 1 < len(stmts) and isinstance(stmts[i + 1], ast.If):
                 x = st.targets[0].id
                 nxt = stmts[i + 1]
                 uses = [n for n in ast.walk(nxt.test) if isinstance(n, ast.Name) and n.id == x]
@@ -1406,7 +1413,189 @@ def _fuse_comprehensions(fn):
     return changed
 
 
-def normalize_module(tree, no_inline, all_classes=None, recorded=None):
+def _split_generator_loops(fn, chain, recorded):
+    """N19: `for x in self._tiers(): BODY` where `_tiers` is a new generator method made only of
+    `for v in IT: yield E` loops (one after the other) is those loops written out:
+    `for v in IT: x = E; BODY` for each of them, in order.  BODY must not `break` (a break would
+    leave all of them) and the loop has no else."""
+    import copy as _copy
+    changed = [False]
+
+    def helper_of(call):
+        if not (isinstance(call, ast.Call) and isinstance(call.func, ast.Attribute) and isinstance(call.func.value, ast.Name)
+                and call.func.value.id == 'self' and not call.args and not call.keywords):
+            return None
+        for c in chain:
+            for b in c.body:
+                if isinstance(b, ast.FunctionDef) and b.name == call.func.attr:
+                    if recorded is not None and c.name in recorded and b.name in recorded[c.name]:
+                        return None
+                    body = [s_ for s_ in b.body if not _is_docstring(s_)]
+                    if body and len(b.args.args) == 1 and not b.decorator_list and all(
+                            isinstance(s_, ast.For) and not s_.orelse and len(s_.body) == 1 and isinstance(s_.body[0], ast.Expr)
+                            and isinstance(s_.body[0].value, ast.Yield) and s_.body[0].value.value is not None
+                            and isinstance(s_.target, ast.Name) for s_ in body):
+                        return body
+                    return None
+        return None
+
+    def has_break(stmts):
+        for st in stmts:
+            if isinstance(st, ast.Break):
+                return True
+            if isinstance(st, (ast.For, ast.While, ast.FunctionDef, ast.AsyncFunctionDef, ast.ClassDef)):
+                continue
+            for field in ('body', 'orelse', 'finalbody'):
+                if has_break(getattr(st, field, []) or []):
+                    return True
+            for h in getattr(st, 'handlers', []) or []:
+                if has_break(h.body):
+                    return True
+        return False
+
+    def block(stmts):
+        i = 0
+        while i < len(stmts):
+            st = stmts[i]
+            for field in ('body', 'orelse', 'finalbody'):
+                sub = getattr(st, field, None)
+                if isinstance(sub, list) and not isinstance(st, (ast.FunctionDef, ast.AsyncFunctionDef, ast.ClassDef)):
+                    block(sub)
+            for h in getattr(st, 'handlers', []) or []:
+                block(h.body)
+            if isinstance(st, ast.For) and not st.orelse and not has_break(st.body):
+                loops = helper_of(st.iter)
+                if loops:
+                    out = []
+                    for lp in loops:
+                        nv = _fresh(lp.target.id)
+
+                        class R(ast.NodeTransformer):
+                            def visit_Name(self, node):
+                                if node.id == lp.target.id:
+                                    return ast.copy_location(ast.Name(id=nv, ctx=node.ctx), node)
+                                return node
+                        it = R().visit(_copy.deepcopy(lp.iter))
+                        val = R().visit(_copy.deepcopy(lp.body[0].value.value))
+                        tgt = _copy.deepcopy(st.target)
+                        body_ = _copy.deepcopy(st.body)
+                        if isinstance(st.target, ast.Name):
+                            # one name per written-out loop: each is then a single-assignment alias of its element
+                            tn_old, tn_new = st.target.id, _fresh(st.target.id)
+
+                            class RT(ast.NodeTransformer):
+                                def visit_Name(self, node):
+                                    if node.id == tn_old:
+                                        return ast.copy_location(ast.Name(id=tn_new, ctx=node.ctx), node)
+                                    return node
+                            tgt = ast.Name(id=tn_new, ctx=ast.Store())
+                            body_ = [RT().visit(x) for x in body_]
+                        bind = ast.Assign(targets=[tgt], value=val, type_comment=None)
+                        new = ast.For(target=ast.Name(id=nv, ctx=ast.Store()), iter=it,
+                                      body=[bind] + body_, orelse=[], type_comment=None)
+                        out.append(ast.fix_missing_locations(ast.copy_location(new, st)))
+                    stmts[i:i + 1] = out
+                    changed[0] = True
+                    i += len(out)
+                    continue
+            i += 1
+    block(fn.body)
+    return changed[0]
+
+
+def _fold_sentinels(tree):
+    """N18: comparisons with a private sentinel object.  `_MARK = object()` at module level (bound once,
+    underscore-private) is a value nothing else can be equal to; when it is only ever compared and
+    handed to calls as an argument, an expression that is not a parameter of a function receiving it
+    cannot be it: `x is _MARK` folds to False (`_MARK is _MARK` to True) and the dead branch goes.
+    Run after inlining, when the helper that tested its parameter has been judged at its call."""
+    stores = {}
+    for n in ast.walk(tree):
+        if isinstance(n, ast.Name) and isinstance(n.ctx, (ast.Store, ast.Del)):
+            stores[n.id] = stores.get(n.id, 0) + 1
+    sents = set()
+    for st in tree.body:
+        if isinstance(st, ast.Assign) and len(st.targets) == 1 and isinstance(st.targets[0], ast.Name) \
+                and isinstance(st.value, ast.Call) and isinstance(st.value.func, ast.Name) and st.value.func.id == 'object' \
+                and not st.value.args and not st.value.keywords and st.targets[0].id.startswith('_') \
+                and stores.get(st.targets[0].id) == 1:
+            sents.add(st.targets[0].id)
+    if not sents:
+        return False
+    parent = {}
+    for n in ast.walk(tree):
+        for c in ast.iter_child_nodes(n):
+            parent[id(c)] = n
+    recv = {s_: set() for s_ in sents}
+    escaped = set()
+    for n in ast.walk(tree):
+        if not (isinstance(n, ast.Name) and n.id in sents and isinstance(n.ctx, ast.Load)):
+            continue
+        p_ = parent.get(id(n))
+        if isinstance(p_, ast.Compare) and all(isinstance(o, (ast.Is, ast.IsNot, ast.Eq, ast.NotEq)) for o in p_.ops):
+            continue
+        if isinstance(p_, ast.IfExp) and n is not p_.test:
+            p_ = parent.get(id(p_))          # a branch of a conditional argument
+            n_arg = True
+        if isinstance(p_, ast.keyword):
+            p_ = parent.get(id(p_))
+        if isinstance(p_, ast.Call) and n is not p_.func:
+            f_ = p_.func
+            recv[n.id].add(f_.attr if isinstance(f_, ast.Attribute) else getattr(f_, 'id', '?'))
+            continue
+        if isinstance(p_, ast.arguments):
+            fn_ = parent.get(id(p_))
+            recv[n.id].add(getattr(fn_, 'name', '?'))
+            continue
+        escaped.add(n.id)
+    sents -= escaped
+    if not sents:
+        return False
+    changed = [False]
+
+    class Fold(ast.NodeTransformer):
+        def __init__(self):
+            self.fn = []
+
+        def visit_FunctionDef(self, node):
+            self.fn.append(node)
+            self.generic_visit(node)
+            self.fn.pop()
+            return node
+        visit_AsyncFunctionDef = visit_FunctionDef
+
+        def visit_Compare(self, node):
+            self.generic_visit(node)
+            if len(node.ops) != 1 or not isinstance(node.ops[0], (ast.Is, ast.IsNot)):
+                return node
+            a, b = node.left, node.comparators[0]
+            if isinstance(a, ast.Name) and a.id in sents:
+                a, b = b, a
+            if not (isinstance(b, ast.Name) and b.id in sents):
+                return node
+            same = None
+            if isinstance(a, ast.Name) and a.id == b.id:
+                same = True
+            elif isinstance(a, ast.Name) and a.id in sents:
+                same = False
+            elif isinstance(a, (ast.Constant, ast.Attribute, ast.Call, ast.BinOp)):
+                same = False
+            elif isinstance(a, ast.Name) and self.fn:
+                g = self.fn[-1]
+                params = {x.arg for x in g.args.args + g.args.kwonlyargs + g.args.posonlyargs}
+                rebound = any(isinstance(x, ast.Name) and x.id == a.id and isinstance(x.ctx, ast.Store) for x in ast.walk(g))
+                if a.id in params and not rebound and g.name not in recv[b.id]:
+                    same = False
+            if same is None:
+                return node
+            changed[0] = True
+            val = same if isinstance(node.ops[0], ast.Is) else not same
+            return ast.copy_location(ast.Constant(value=val), node)
+    Fold().visit(tree)
+    return changed[0]
+
+
+def normalize_module(tree, no_inline, all_classes=None, recorded=None, all_funcs=None):
     """Normalise one module in place.  Returns {helper qual: inlined call count}.
     recorded: {class name: names of its methods in the recorded (pinned) tree}."""
     for fn_ in [n for n in ast.walk(tree) if isinstance(n, ast.FunctionDef)]:
@@ -1470,10 +1659,21 @@ def normalize_module(tree, no_inline, all_classes=None, recorded=None):
         if isinstance(n, ast.FunctionDef) and n.name.startswith('_') and not n.name.startswith('__'):
             n._module_level = True
             inl.module_funcs[n.name] = n
+        elif isinstance(n, ast.FunctionDef) and all_funcs and all_funcs.get(n.name) is n:
+            n._module_level = n._fresh_func = True      # public, but not in the recorded tree
+            inl.module_funcs[n.name] = n
+        elif isinstance(n, ast.ImportFrom) and all_funcs and (n.level or (n.module or '').split('.')[0] == 'topsim'):
+            # from topsim.core.delay import apply_delay_model [as adm]: a helper of another module
+            for a in n.names:
+                h = all_funcs.get(a.name)
+                if h is not None and (a.asname or a.name) not in inl.module_funcs:
+                    h._module_level = h._fresh_func = True
+                    inl.module_funcs[a.asname or a.name] = h
     for c in classes.values():
         ch = chain(c)
         for fn in [b for b in c.body if isinstance(b, ast.FunctionDef)]:
             inl.local_funcs = _closures(fn)
+            _split_generator_loops(fn, ch, recorded)
             for _ in range(3):
                 t1 = _InlineExprs(inl, ch, fn, qual_of)
                 t1.visit(fn)
@@ -1490,6 +1690,7 @@ def normalize_module(tree, no_inline, all_classes=None, recorded=None):
                     break
             if _fuse_comprehensions(fn):
                 _idioms.rewrite_function(fn, c.name)
+            _forward_return_temps(fn)          # (return temporaries of inlined helpers)
             _scalarise_tuples(fn)
             _SplitTupleAssign().visit(fn)
             _forward_process_temps(fn)
@@ -1497,5 +1698,7 @@ def normalize_module(tree, no_inline, all_classes=None, recorded=None):
             _forward_loop_flags(fn)
     for fn in [n for n in tree.body if isinstance(n, ast.FunctionDef)]:
         _forward_process_temps(fn)
+    if _fold_sentinels(tree):
+        _FoldConst().visit(tree)
     ast.fix_missing_locations(tree)
     return inl.inlined_calls
